@@ -172,7 +172,9 @@ void EventLoop::queueInLoop(Functor cb)
   }
   MUDUO_VERIF_POINT("EventLoop::queueInLoop:appended", this);
 
-  if (!isInLoopThread() || callingPendingFunctors_)
+  // !looping_: queued by the owner thread before loop() - nothing else would
+  // wake the first poll, and the functor would wait for the poll timeout
+  if (!isInLoopThread() || callingPendingFunctors_ || !looping_)
   {
     wakeup();
   }
